@@ -2,13 +2,52 @@ import Tcell.Lemmas.DrawCorner
 namespace Tcell
 open Buf
 
-/-- one loop iteration preserves the pass invariant, whatever the cell's state -/
-theorem visit_post {c : DrawCfg} (hrw : RwOk c.rw) (hct : c.Plain) {d : Option Style} {s : Scr} {t : ATerm}
-    {x y : Int} (inv : PassInv c d s t x y) (hr : s.cells.inRange x y) :
+/-- one loop iteration preserves the pass invariant, whatever the cell's state — the bottom-right corner trick included -/
+theorem visit_post {c : DrawCfg} (hrw : RwOk c.rw) (hct : c.Walk) {d : Option Style} {s : Scr} {t : ATerm}
+    {x y : Int} (inv : PassInv c d s t x y) (hr : s.cells.inRange x y) (hcc : CornerCtx c s x y) :
     VisitPost c d s t x y (s.visit c x y).1 (t.applyAll (s.visit c x y).2.1) (s.visit c x y).2.2 := by
   cases hd : s.cells.dirty x y
   · exact visit_clean hrw hct inv hr hd
-  · exact visit_dirty hrw hct inv hr hd
+  · by_cases hcor : y = s.h - 1 ∧ x = s.w - 1 ∧ c.cornerTrick = true
+    · obtain ⟨h2, hul, gh⟩ := hcc hcor.2.2 hcor.1 (by omega)
+      exact visit_corner hrw hct inv hr hd hcor h2 hul gh
+    · exact visit_dirty hrw hct inv hr hd hcor
+
+/-- the corner-trick context is carried from one loop iteration to the next -/
+theorem cornerCtx_step {c : DrawCfg} (hrw : RwOk c.rw) {d : Option Style} {s : Scr} {t : ATerm} {x y : Int} {s' : Scr} {t' : ATerm}
+    {wd : Int} (inv : PassInv c d s t x y) (hr : s.cells.inRange x y) (hcc : CornerCtx c s x y)
+    (vp : VisitPost c d s t x y s' t' wd) : CornerCtx c s' (x + wd) y := by
+  intro hc hy hlt
+  rw [vp.h_same] at hy; rw [vp.w_same] at hlt
+  have hxy : 0 ≤ x ∧ x < s.w ∧ 0 ≤ y ∧ y < s.h := by
+    have := inv.cw; have := inv.ch; simp only [inRange_iff] at hr; omega
+  have hwd := vp.wd_pos
+  obtain ⟨h2, hul, gh⟩ := hcc hc hy (by omega)
+  have hcw : s'.cells.w = s.cells.w := by rw [vp.inv.cw, vp.w_same, inv.cw]
+  have hch : s'.cells.h = s.cells.h := by rw [vp.inv.ch, vp.h_same, inv.ch]
+  have hgc := getContent_wok hrw s.cells x y hr (inv.wok x y)
+  have hwp := obsWidth_pos hrw (s.cells.cells x y).currMain
+  have hraw : rawW s.cells x y = (s.cells.getContent x y).2.2.2 := by
+    unfold rawW; rw [hgc]; simp only; split <;> omega
+  have hstep : stepW c s.cells x y = rawW s.cells x y := by
+    rw [hraw]; unfold stepW; rw [hul (x + 1)]; simp
+  have hwdeq : wd = rawW s.cells x y := by
+    rcases vp.wd_eq with h | h
+    · rw [h, hstep]
+    · omega
+  have hraw' : rawW s'.cells x y = rawW s.cells x y := rawW_congr _ _ _ _ (vp.gc_same x y)
+  refine ⟨by rw [vp.w_same]; exact h2, ?_, ?_, ?_⟩
+  · intro i; rw [locked_congr _ _ hcw hch vp.lock_same]; exact hul i
+  · rw [hwdeq]
+    exact (gh.reach.snoc).congr (fun i => vp.gc_same i y)
+  · intro _
+    refine ⟨x, hxy.1, gh.reach.congr (fun i => vp.gc_same i y), by rw [hraw', hwdeq], ?_⟩
+    have hl : (s.cells.cells x y).lock = false := unlocked_of_locked_false _ _ _ hr (hul x)
+    obtain ⟨d1, d2⟩ := vp.done hl
+    refine ⟨d1, d2, ?_⟩
+    intro hw
+    rw [hraw'] at hw
+    exact vp.nb (by omega) (by omega)
 
 theorem drawRow_succ (c : DrawCfg) (y : Int) (fuel : Nat) (x : Int) (s : Scr) :
     Scr.drawRow c y (fuel + 1) x s =
@@ -125,38 +164,41 @@ structure RowPost (c : DrawCfg) (d : Option Style) (s : Scr) (t : ATerm) (x0 y :
   flags_same : s'.clear = s.clear ∧ s'.fini = s.fini
   vis_same : t'.visible = t.visible ∧ t'.shape = t.shape
   /-- cells that received payload in this pass were dirty when the pass reached them, and lie in this row right of x0 -/
-  writes : ∃ ws, t'.writes = ws ++ t.writes ∧ ∀ p ∈ ws, p.2 = y ∧ x0 ≤ p.1 ∧ s.cells.dirty p.1 p.2 = true ∧
-    visitsG c s.cells y fuel x0 p.1 = true
+  writes : ∃ ws, t'.writes = ws ++ t.writes ∧ ∀ p ∈ ws,
+    (p.2 = y ∧ x0 ≤ p.1 ∧ s.cells.dirty p.1 p.2 = true ∧ visitsG c s.cells y fuel x0 p.1 = true) ∨
+    (c.cornerTrick = true ∧ y = s.h - 1 ∧ p.2 = y ∧ x0 ≤ s.w - 1 ∧ s.cells.dirty (s.w - 1) y = true ∧
+      visitsG c s.cells y fuel x0 (s.w - 1) = true ∧
+      (p.1 = s.w - 2 ∨ p.1 = Scr.coverStart s.cells y (s.w - 1).toNat 0 (s.w - 1)))
   covers : ∃ cs, t'.covered = cs ++ t.covered ∧ (c.guardLocked = true → ∀ p ∈ cs, s.cells.locked p.1 p.2 = false)
 
 theorem visitsG_self (c : DrawCfg) (b : Buf) (y : Int) (fuel : Nat) (x0 : Int) (h : x0 < b.w) :
     visitsG c b y (fuel + 1) x0 x0 = true := by
   simp [visitsG, h]
 
-theorem drawRow_post {c : DrawCfg} (hrw : RwOk c.rw) (hct : c.Plain) {d : Option Style} (y : Int) :
-    ∀ (fuel : Nat) (x : Int) (s : Scr) (t : ATerm), 0 ≤ x → 0 ≤ y → y < s.h → PassInv c d s t x y →
+theorem drawRow_post {c : DrawCfg} (hrw : RwOk c.rw) (hct : c.Walk) {d : Option Style} (y : Int) :
+    ∀ (fuel : Nat) (x : Int) (s : Scr) (t : ATerm), 0 ≤ x → 0 ≤ y → y < s.h → PassInv c d s t x y → CornerCtx c s x y →
       RowPost c d s t x y fuel (Scr.drawRow c y fuel x s).1 (t.applyAll (Scr.drawRow c y fuel x s).2) := by
   intro fuel
   induction fuel with
   | zero =>
-    intro x s t _ _ _ inv
+    intro x s t _ _ _ inv _
     exact { sync := inv.toSyncInv, kcur := inv.kcur, kpen := inv.kpen, gc_same := fun _ _ => rfl, lock_same := fun _ _ => rfl,
             other_same := fun _ _ _ => rfl, done := by intro i h; simp [visitsG] at h, w_same := rfl, h_same := rfl,
             style_same := rfl, cursor_same := ⟨rfl, rfl, rfl, rfl⟩, flags_same := ⟨rfl, rfl⟩, vis_same := ⟨rfl, rfl⟩,
             writes := ⟨[], by simp [Scr.drawRow], by simp⟩,
             covers := ⟨[], by simp [Scr.drawRow], by intro _ p hp; simp at hp⟩ }
   | succ n ih =>
-    intro x s t hx0 hy0 hy1 inv
+    intro x s t hx0 hy0 hy1 inv hcc
     rw [drawRow_succ]
     by_cases hlt : x < s.w
     · rw [if_pos hlt]; simp only
       have hr : s.cells.inRange x y := by
         have := inv.cw; have := inv.ch; simp only [inRange_iff]; omega
-      have vp := visit_post hrw hct inv hr
+      have vp := visit_post hrw hct inv hr hcc
       rw [applyAll_append]
       have hy1' : y < (s.visit c x y).1.h := by rw [vp.h_same]; exact hy1
       have rp := ih (x + (s.visit c x y).2.2) (s.visit c x y).1 (t.applyAll (s.visit c x y).2.1)
-        (by have := vp.wd_pos; omega) hy0 hy1' vp.inv
+        (by have := vp.wd_pos; omega) hy0 hy1' vp.inv (cornerCtx_step hrw inv hr hcc vp)
       have hwd := vp.wd_pos
       have hcw : (s.visit c x y).1.cells.w = s.cells.w := by rw [vp.inv.cw, vp.w_same, inv.cw]
       have hch : (s.visit c x y).1.cells.h = s.cells.h := by rw [vp.inv.ch, vp.h_same, inv.ch]
@@ -201,41 +243,47 @@ theorem drawRow_post {c : DrawCfg} (hrw : RwOk c.rw) (hct : c.Plain) {d : Option
       · obtain ⟨a1, a2⟩ := rp.vis_same; obtain ⟨b1, b2⟩ := vp.vis_same
         exact ⟨a1.trans b1, a2.trans b2⟩
       · obtain ⟨ws, hws, hmem⟩ := rp.writes
-        rw [vp.writes] at hws
+        obtain ⟨ws1, hws1, hnil, hm1⟩ := vp.writes
+        rw [hws1] at hws
         -- a cell right of the visit position is untouched by the visit, so "dirty" means the same before and after
-        have hkeep : ∀ p : Int × Int, p.2 = y → x + (s.visit c x y).2.2 ≤ p.1 →
-            (s.visit c x y).1.cells.dirty p.1 p.2 = true → s.cells.dirty p.1 p.2 = true := by
-          intro p p1 p2 p3
-          have hsame := vp.other_same p.1 p.2 (Or.inr (Or.inr p2))
+        have hkeep : ∀ i : Int, x + (s.visit c x y).2.2 ≤ i →
+            (s.visit c x y).1.cells.dirty i y = true → s.cells.dirty i y = true := by
+          intro i p2 p3
+          have hsame := vp.other_same i y (Or.inr (Or.inr p2))
           simp only [dirty, inRange_iff, hcw, hch, hsame] at p3 ⊢
           exact p3
         -- and the spec's column walk reaches it from x too
-        have hvis : ∀ p : Int × Int, x + (s.visit c x y).2.2 ≤ p.1 →
-            visitsG c (s.visit c x y).1.cells y n (x + (s.visit c x y).2.2) p.1 = true →
-            visitsG c s.cells y (n + 1) x p.1 = true := by
-          intro p p2 p4
+        have hvis : ∀ i : Int, x + (s.visit c x y).2.2 ≤ i →
+            visitsG c (s.visit c x y).1.cells y n (x + (s.visit c x y).2.2) i = true →
+            visitsG c s.cells y (n + 1) x i = true := by
+          intro i p2 p4
           rw [hwalk] at p4
           simp only [visitsG, if_pos (show x < s.cells.w by rw [inv.cw]; exact hlt)]
-          have hne : ¬ p.1 = x := by omega
+          have hne : ¬ i = x := by omega
           rw [if_neg hne]
           rcases vp.wd_eq with e | e
           · rw [← e]; exact p4
           · exfalso; rw [visitsG_ge _ _ _ _ _ _ (by rw [inv.cw]; omega)] at p4; simp at p4
-        by_cases hd : s.cells.dirty x y = true
-        · rw [if_pos hd] at hws
-          refine ⟨ws ++ [(x, y)], by rw [hws]; simp, ?_⟩
-          intro p hp
-          rcases List.mem_append.1 hp with hp | hp
-          · obtain ⟨p1, p2, p3, p4⟩ := hmem p hp
-            exact ⟨p1, by omega, hkeep p p1 p2 p3, hvis p p2 p4⟩
-          · simp only [List.mem_singleton] at hp; subst hp
+        refine ⟨ws ++ ws1, by rw [hws]; simp, ?_⟩
+        intro p hp
+        rcases List.mem_append.1 hp with hp | hp
+        · rcases hmem p hp with ⟨p1, p2, p3, p4⟩ | ⟨e1, e2, e3, e4, e5, e6, e7⟩
+          · left; exact ⟨p1, by omega, by rw [p1] at p3 ⊢; exact hkeep p.1 p2 p3, hvis p.1 p2 p4⟩
+          · right
+            rw [vp.w_same] at e4 e5 e6 e7; rw [vp.h_same] at e2
+            refine ⟨e1, e2, e3, by omega, hkeep _ e4 e5, hvis _ e4 e6, ?_⟩
+            rw [coverStart_congr s.cells _ y (fun i => vp.gc_same i y)] at e7; exact e7
+        · have hd : s.cells.dirty x y = true := by
+            cases h : s.cells.dirty x y
+            · rw [hnil h] at hp; simp at hp
+            · rfl
+          rcases hm1 p hp with h | ⟨e1, e2, e3, e4, e5⟩
+          · left; subst h
             exact ⟨rfl, by simp, hd, visitsG_self _ _ _ _ _ (by rw [inv.cw]; exact hlt)⟩
-        · have hd' : s.cells.dirty x y = false := by cases h : s.cells.dirty x y <;> simp_all
-          rw [hd'] at hws; simp only [Bool.false_eq_true, if_false] at hws
-          refine ⟨ws, hws, ?_⟩
-          intro p hp
-          obtain ⟨p1, p2, p3, p4⟩ := hmem p hp
-          exact ⟨p1, by omega, hkeep p p1 p2 p3, hvis p p2 p4⟩
+          · right
+            refine ⟨e1, e2, e4, by omega, by rw [← e3]; exact hd, ?_, ?_⟩
+            · rw [← e3]; exact visitsG_self _ _ _ _ _ (by rw [inv.cw]; exact hlt)
+            · rw [← e3]; exact e5
       · obtain ⟨cs2, h2, m2⟩ := rp.covers
         obtain ⟨cs1, h1, m1⟩ := vp.covers
         refine ⟨cs2 ++ cs1, by rw [h2, h1]; simp, ?_⟩
@@ -273,8 +321,11 @@ structure RowsPost (c : DrawCfg) (d : Option Style) (s : Scr) (t : ATerm) (y0 : 
   cursor_same : s'.cursorx = s.cursorx ∧ s'.cursory = s.cursory ∧ s'.cursorStyle = s.cursorStyle ∧ s'.cursorColor = s.cursorColor
   flags_same : s'.clear = s.clear ∧ s'.fini = s.fini
   vis_same : t'.visible = t.visible ∧ t'.shape = t.shape
-  writes : ∃ ws, t'.writes = ws ++ t.writes ∧ ∀ p ∈ ws, y0 ≤ p.2 ∧ s.cells.dirty p.1 p.2 = true ∧
-    visitsG c s.cells p.2 s.w.toNat 0 p.1 = true
+  writes : ∃ ws, t'.writes = ws ++ t.writes ∧ ∀ p ∈ ws,
+    (y0 ≤ p.2 ∧ s.cells.dirty p.1 p.2 = true ∧ visitsG c s.cells p.2 s.w.toNat 0 p.1 = true) ∨
+    (c.cornerTrick = true ∧ p.2 = s.h - 1 ∧ y0 ≤ p.2 ∧ s.cells.dirty (s.w - 1) (s.h - 1) = true ∧
+      visitsG c s.cells (s.h - 1) s.w.toNat 0 (s.w - 1) = true ∧
+      (p.1 = s.w - 2 ∨ p.1 = Scr.coverStart s.cells (s.h - 1) (s.w - 1).toNat 0 (s.w - 1)))
   covers : ∃ cs, t'.covered = cs ++ t.covered ∧ (c.guardLocked = true → ∀ p ∈ cs, s.cells.locked p.1 p.2 = false)
 
 theorem drawRows_succ (c : DrawCfg) (fuel : Nat) (y : Int) (s : Scr) :
@@ -285,33 +336,42 @@ theorem drawRows_succ (c : DrawCfg) (fuel : Nat) (y : Int) (s : Scr) :
       else (s, []) := by
   simp only [Scr.drawRows]
 
-theorem drawRows_post {c : DrawCfg} (hrw : RwOk c.rw) (hct : c.Plain) {d : Option Style} :
-    ∀ (fuel : Nat) (y : Int) (s : Scr) (t : ATerm), 0 ≤ y → SyncInv c d s t →
+theorem drawRows_post {c : DrawCfg} (hrw : RwOk c.rw) (hct : c.Walk) {d : Option Style} :
+    ∀ (fuel : Nat) (y : Int) (s : Scr) (t : ATerm), 0 ≤ y → SyncInv c d s t → CornerSafe c s →
       (s.cells.inRange s.cx s.cy → t.cur = some (s.cx, s.cy)) → (s.curstyle ≠ styleInvalid → t.pen = some s.curstyle) →
       (∀ d', d = some d' → d' = s.style) →
       RowsPost c d s t y fuel (Scr.drawRows c fuel y s).1 (t.applyAll (Scr.drawRows c fuel y s).2) := by
   intro fuel
   induction fuel with
   | zero =>
-    intro y s t _ inv kc kp _
+    intro y s t _ inv _ kc kp _
     exact { sync := inv, kcur := kc, kpen := kp, gc_same := fun _ _ => rfl, lock_same := fun _ _ => rfl,
             other_same := fun _ _ _ => rfl, done := by intro y' i h1 h2; omega, w_same := rfl, h_same := rfl,
             style_same := rfl, cursor_same := ⟨rfl, rfl, rfl, rfl⟩, flags_same := ⟨rfl, rfl⟩, vis_same := ⟨rfl, rfl⟩,
             writes := ⟨[], by simp [Scr.drawRows], by simp⟩,
             covers := ⟨[], by simp [Scr.drawRows], by intro _ p hp; simp at hp⟩ }
   | succ n ih =>
-    intro y s t hy0 inv kc kp dc
+    intro y s t hy0 inv hsafe kc kp dc
     rw [drawRows_succ]
     by_cases hlt : y < s.h
     · rw [if_pos hlt]; simp only
       have pinv : PassInv c d s t 0 y :=
         { toSyncInv := inv, kcur := kc, kpen := kp, q := by intro h; omega, dcompat := dc }
-      have rp := drawRow_post hrw hct y s.w.toNat 0 s t (by omega) hy0 hlt pinv
+      have hcc : CornerCtx c s 0 y := by
+        intro hc hy _
+        obtain ⟨h2, hul⟩ := hsafe hc
+        exact ⟨h2, by rw [hy]; exact hul, ⟨.refl 0, fun h => by omega⟩⟩
+      have rp := drawRow_post hrw hct y s.w.toNat 0 s t (by omega) hy0 hlt pinv hcc
       rw [applyAll_append]
-      have rs := ih (y + 1) (Scr.drawRow c y s.w.toNat 0 s).1 (t.applyAll (Scr.drawRow c y s.w.toNat 0 s).2) (by omega)
-        rp.sync rp.kcur rp.kpen (by intro d' hd'; rw [rp.style_same]; exact dc d' hd')
       have hcw : (Scr.drawRow c y s.w.toNat 0 s).1.cells.w = s.cells.w := by rw [rp.sync.cw, rp.w_same, inv.cw]
       have hch : (Scr.drawRow c y s.w.toNat 0 s).1.cells.h = s.cells.h := by rw [rp.sync.ch, rp.h_same, inv.ch]
+      have hsafe1 : CornerSafe c (Scr.drawRow c y s.w.toNat 0 s).1 := by
+        intro hc
+        obtain ⟨h2, hul⟩ := hsafe hc
+        refine ⟨by rw [rp.w_same]; exact h2, ?_⟩
+        intro i; rw [rp.h_same, locked_congr _ _ hcw hch rp.lock_same]; exact hul i
+      have rs := ih (y + 1) (Scr.drawRow c y s.w.toNat 0 s).1 (t.applyAll (Scr.drawRow c y s.w.toNat 0 s).2) (by omega)
+        rp.sync hsafe1 rp.kcur rp.kpen (by intro d' hd'; rw [rp.style_same]; exact dc d' hd')
       -- rows other than y are untouched by the pass over row y, so the walk over them is the same on both buffers
       have hrowwalk : ∀ y', y' ≠ y → ∀ f i, visitsG c (Scr.drawRow c y s.w.toNat 0 s).1.cells y' f 0 i = visitsG c s.cells y' f 0 i := by
         intro y' hy' f i
@@ -344,16 +404,26 @@ theorem drawRows_post {c : DrawCfg} (hrw : RwOk c.rw) (hct : c.Plain) {d : Optio
       · obtain ⟨ws1, hws1, hm1⟩ := rp.writes
         obtain ⟨ws2, hws2, hm2⟩ := rs.writes
         refine ⟨ws2 ++ ws1, by rw [hws2, hws1]; simp, ?_⟩
+        have hdsame : ∀ i j, j ≠ y → (Scr.drawRow c y s.w.toNat 0 s).1.cells.dirty i j = true → s.cells.dirty i j = true := by
+          intro i j hj p2
+          have hsame := rp.other_same i j (Or.inl hj)
+          simp only [dirty, inRange_iff, hcw, hch, hsame] at p2 ⊢
+          exact p2
         intro p hp
         rcases List.mem_append.1 hp with hp | hp
-        · obtain ⟨p1, p2, p3⟩ := hm2 p hp
-          refine ⟨by omega, ?_, ?_⟩
-          · have hsame := rp.other_same p.1 p.2 (Or.inl (by omega))
-            simp only [dirty, inRange_iff, hcw, hch, hsame] at p2 ⊢
-            exact p2
-          · rw [hrowwalk p.2 (by omega), rp.w_same] at p3; exact p3
-        · obtain ⟨p1, _, p3, p4⟩ := hm1 p hp
-          exact ⟨by omega, p3, by rw [p1]; exact p4⟩
+        · rcases hm2 p hp with ⟨p1, p2, p3⟩ | ⟨e1, e2, e3, e4, e5, e6⟩
+          · left
+            refine ⟨by omega, hdsame _ _ (by omega) p2, ?_⟩
+            rw [hrowwalk p.2 (by omega), rp.w_same] at p3; exact p3
+          · right
+            rw [rp.w_same, rp.h_same] at e4 e5 e6; rw [rp.h_same] at e2
+            refine ⟨e1, e2, by omega, hdsame _ _ (by omega) e4, ?_, ?_⟩
+            · rw [hrowwalk (s.h - 1) (by omega)] at e5; exact e5
+            · rw [coverStart_congr s.cells _ (s.h - 1) (fun i => rp.gc_same i (s.h - 1))] at e6; exact e6
+        · rcases hm1 p hp with ⟨p1, _, p3, p4⟩ | ⟨e1, e2, e3, _, e5, e6, e7⟩
+          · left; exact ⟨by omega, p3, by rw [p1]; exact p4⟩
+          · right; subst e2
+            exact ⟨e1, e3, by omega, e5, e6, e7⟩
       · obtain ⟨cs2, h2, m2⟩ := rs.covers
         obtain ⟨cs1, h1, m1⟩ := rp.covers
         refine ⟨cs2 ++ cs1, by rw [h2, h1]; simp, ?_⟩
@@ -437,7 +507,10 @@ structure DrawPost (c : DrawCfg) (d : Option Style) (s : Scr) (t : ATerm) (s' : 
     (¬ s.cells.inRange s.cursorx s.cursory →
       (c.hasHide = true → t'.visible = some false) ∧
       (c.hasHide = false → t'.cur = some (t.clampX s.cells.w, t.clampY s.cells.h)))
-  writes : ∃ ws, t'.writes = ws ++ t.writes ∧ ∀ p ∈ ws, s.cells.dirty p.1 p.2 = true ∧ visitedG c s.cells p.1 p.2 = true
+  /-- payload goes to cells that were dirty and visited — and, with the bottom-right corner trick, to the second to last
+  column of the last row and the cell covering it when the corner cell is repainted (`CornerWrite`) -/
+  writes : ∃ ws, t'.writes = ws ++ t.writes ∧ ∀ p ∈ ws,
+    (s.cells.dirty p.1 p.2 = true ∧ visitedG c s.cells p.1 p.2 = true) ∨ CornerWrite c s.cells p
   /-- with the guard compiled in, no cell a payload of this draw occupies is locked -/
   covers : ∃ cs, t'.covered = cs ++ t.covered ∧ (c.guardLocked = true → ∀ p ∈ cs, s.cells.locked p.1 p.2 = false)
 
@@ -494,8 +567,9 @@ theorem draw_eq (c : DrawCfg) (s : Scr) :
       (r4.1, r1.2 ++ r2.2 ++ r3.2 ++ r4.2) := by
   simp only [Scr.draw]
 
-theorem draw_post {c : DrawCfg} (hrw : RwOk c.rw) (hct : c.Plain) {d : Option Style} {s : Scr} {t : ATerm}
-    (pre : BufOk c s t) (inv : s.clear = false → SyncInv c d s t) (hclear : s.clear = true → AllDirty s) :
+theorem draw_post {c : DrawCfg} (hrw : RwOk c.rw) (hct : c.Walk) {d : Option Style} {s : Scr} {t : ATerm}
+    (pre : BufOk c s t) (inv : s.clear = false → SyncInv c d s t) (hclear : s.clear = true → AllDirty s)
+    (hsafe : CornerSafe c s) :
     DrawPost c (if d = some s.style then d else none) s t (s.draw c).1 (t.applyAll (s.draw c).2) := by
   rw [draw_eq]; simp only
   generalize hd1 : (if d = some s.style then d else none) = d1
@@ -565,7 +639,10 @@ theorem draw_post {c : DrawCfg} (hrw : RwOk c.rw) (hct : c.Plain) {d : Option St
           rw [k2, k3, e07, e08, g7] at hr; simp only [inRange_iff] at hr; omega
   obtain ⟨inv3, f1, f2, f3, f4, f5, f6, f7, f8, f9, f10, f11, f12, f13, f14⟩ := st2
   -- step 3: the double loop
-  have rp := drawRows_post hrw hct (d := d1) r2.1.h.toNat 0 r2.1 t2 (by omega) inv3
+  have hsafe2 : CornerSafe c r2.1 := by
+    intro hc
+    rw [f2, g8, e02, f3, g9, e03, f1, g7, e01]; exact hsafe hc
+  have rp := drawRows_post hrw hct (d := d1) r2.1.h.toNat 0 r2.1 t2 (by omega) inv3 hsafe2
     (by rw [f1, f8, f9]; exact f14)
     (by intro h; rw [f5, hcs1] at h; exact absurd rfl h)
     (by intro d' hd'; rw [f4, g10, e04]; exact dc1 d' hd')
@@ -637,8 +714,14 @@ theorem draw_post {c : DrawCfg} (hrw : RwOk c.rw) (hct : c.Plain) {d : Option St
   · obtain ⟨ws, hws, hm⟩ := rp.writes
     refine ⟨ws, ?_, ?_⟩
     · rw [k5.1, hws, f11.1, g5.1]
-    · intro p hp; have := (hm p hp).2; rw [hcells2, hw2] at this
-      exact ⟨this.1, by simpa [visitedG, pre.cw] using this.2⟩
+    · intro p hp
+      rcases hm p hp with ⟨_, p2, p3⟩ | ⟨e1, e2, _, e4, e5, e6⟩
+      · left; rw [hcells2] at p2; rw [hcells2, hw2] at p3
+        exact ⟨p2, by simpa [visitedG, pre.cw] using p3⟩
+      · right
+        rw [hcells2, hw2, hh2] at e4 e5 e6; rw [hh2] at e2
+        refine ⟨e1, by rw [pre.ch]; exact e2, by rw [pre.cw, pre.ch]; exact e4, ?_, by rw [pre.cw, pre.ch]; exact e6⟩
+        rw [pre.cw, pre.ch]; simpa [visitedG, pre.cw] using e5
   · obtain ⟨cs, hcs, hm⟩ := rp.covers
     refine ⟨cs, ?_, ?_⟩
     · rw [k5.2, hcs, f11.2, g5.2]
